@@ -346,7 +346,14 @@ def find_irrelevant_type(etype: tp.Type, types: List[tp.Type],
         for t in relevant_types
         if isinstance(t, tp.ParameterizedType)
     }
-    available_types = [t for t in types if t not in relevant_types]
+    # A class type recorded before the supertypes of its class were known
+    # (e.g., the type argument in `class A extends B<A>`) is not equal to the
+    # current type of the class, but it still denotes the same class.
+    available_types = [
+        t for t in types
+        if t not in relevant_types and (
+            t.is_type_constructor() or t.name != etype.name)
+    ]
     if not available_types:
         return None
     t = utils.random.choice(available_types)
